@@ -22,7 +22,8 @@ BOOK_UNITS_C01 = ["check_balance", "ComputedPosting::calculate_balance_amount", 
 PROPS = {
     "C01": {
         "level": "proof",
-        "verus": [("bookkeep", BOOK_UNITS_C01), ("amounts", ["SingleAmount::with_sign_of", "Mul<Decimal> for SingleAmount", "AddAssign<PostingAmount> for Amount", "AddAssign<SingleAmount> for Amount", "TryFrom<PostingAmount> for SingleAmount"])],
+        "verus": [("bookkeep", BOOK_UNITS_C01), ("amounts", ["SingleAmount::with_sign_of", "Mul<Decimal> for SingleAmount", "AddAssign<PostingAmount> for Amount", "AddAssign<SingleAmount> for Amount", "TryFrom<PostingAmount> for SingleAmount",
+                                                                 "Amount::round_mut", "Amount::round", "Amount::is_zero", "Amount::maybe_pair", "Amount::negate", "SubAssign for Amount", "AddAssign<Amount> for Amount"])],
         "family": ("c01", {"quick": ["quick"], "thorough": ["thorough"]}),
         "explanation": "Verus proves on the text of /repo: check_balance returns Ok only if the rounded per-commodity totals are all zero or exactly two non-zero totals of opposite sign remain, "
                        "always accepts an all-zero total, and otherwise returns UnbalancedPostings without dividing by zero; each posting is valued at lot price, else cost, else its own amount; "
@@ -37,7 +38,7 @@ PROPS = {
     },
     "C02": {
         "level": "proof",
-        "verus": [("bookkeep", ["process_posting", "add_transaction"]), ("balance", ["Balance::add_posting_amount"]), ("amounts", ["Amount::assert_balance", "Amount::get_part", "Amount::is_absolute_zero"])],
+        "verus": [("bookkeep", ["process_posting", "add_transaction"]), ("balance", ["Balance::add_posting_amount"]), ("amounts", ["Amount::assert_balance", "Amount::get_part", "Amount::is_absolute_zero", "Amount::is_zero", "SubAssign for Amount", "Amount::remove_zero_entries", "AddAssign<Amount> for Amount"])],
         "family": ("c02", {"quick": ["quick"], "thorough": ["thorough"]}),
         "explanation": "Verus proves: process_posting adds the posting to exactly that account (whole-balance postcondition, zero entries removed), and when it returns Ok with `= X` present the assertion "
                        "holds on the updated holdings (X's commodity equals X exactly; bare `= 0` means nothing non-zero is held); a false assertion yields BalanceAssertionFailure carrying the posting's "
@@ -49,7 +50,8 @@ PROPS = {
     "C03": {
         "level": "proof",
         "verus": [("bookkeep", ["process_posting", "add_transaction"]), ("balance", ["Balance::set_partial", "Balance::add_amount"]),
-                  ("amounts", ["Amount::set_partial", "PostingAmount::check_sub", "PostingAmount::check_add", "Neg for PostingAmount", "SingleAmount::check_add", "SingleAmount::check_sub", "TryFrom<&Amount> for PostingAmount"])],
+                  ("amounts", ["Amount::set_partial", "PostingAmount::check_sub", "PostingAmount::check_add", "Neg for PostingAmount", "SingleAmount::check_add", "SingleAmount::check_sub", "TryFrom<&Amount> for PostingAmount",
+                               "Amount::negate", "AddAssign<Amount> for Amount", "SubAssign for Amount", "Amount::remove_zero_entries"])],
         "family": ("c03", {"quick": ["quick"], "thorough": ["thorough"]}),
         "explanation": "Verus proves: `Account = X` without amount yields exactly X minus the account's holding in that commodity (bare `= 0`: minus its whole single-commodity holding), leaves the account at X and "
                        "changes no other account; `= 0` on several commodities is an error; the single omitted posting receives the negated sum of balancing values in as many commodities as needed, is booked "
@@ -60,7 +62,7 @@ PROPS = {
     },
     "C04": {
         "level": "proof",
-        "verus": [("daterange", None), ("balance", ["Balance::add_amount", "Balance::add_posting_amount"])],
+        "verus": [("daterange", None), ("balance", ["Balance::add_amount", "Balance::add_posting_amount"]), ("amounts", ["AddAssign<Amount> for Amount", "Amount::remove_zero_entries"])],
         "family": ("c04", {"quick": [], "thorough": []}),
         "explanation": "Verus proves (a) DateRange::contains is exactly start <= d < end with open ends as infinity, adjacent windows partition their union and empty windows contain nothing, "
                        "is_bypass/require_recompute choose the stored balance only for an unbounded window without per-posting conversion; (b) every update of the running Balance adds the posting to that "
@@ -68,6 +70,24 @@ PROPS = {
         "units_doc": ["core/src/report/query.rs: DateRange::{contains,is_bypass}, BalanceQuery::require_recompute", "core/src/report/balance.rs: Balance::{add_amount, add_posting_amount}"],
         "assumptions": ["assumed L0 model of chrono::NaiveDate: a totally ordered day number (vx/prelude/chrono.rs)", L0_DECIMAL, L0_HANDLES, L0_STD, L1_AMOUNT],
         "not_decided": ["Ledger::balance re-fold (flat_map/filter_map closures), Balance::round, RegisterCmd running total"],
+    },
+    "C05": {
+        "level": "other",
+        "verus": [("prettydec", ["from_str"]), ("columns", ["literal:posting_indent", "literal:posting_metadata_indent", "literal:txn_metadata_indent"])],
+        "kani": {"quick": [], "thorough": []},
+        "family": ("c05", {"quick": [], "thorough": ["thorough"]}),
+        "technique": "bounded: a catalogue of entries in the documented syntax is parsed, formatted and parsed again (entries must be ==) and formatted twice (text must not change), each also without a final newline, "
+                     "with CRLF and with extra blank lines; contract-based only for the numeric-literal sub-grammar (Verus on PrettyDecimal::from_str, C07) and the indent literals of Display (C19)",
+        "explanation": "BOUNDED (the parser is ~2000 lines of winnow combinator closures over a GAT decoration: neither verifier can take it; stated plainly).  Deductive fragments reused: PrettyDecimal::from_str accepts "
+                       "exactly the well-formed literals and keeps value, scale and grouping (C07); the posting / metadata indent literals of Display are four spaces (C19).  Everything else is the c05 family: ~65 "
+                       "catalogue entries (five comment prefixes, account / commodity declarations with alias, note, format and multi-line comments, apply tag / end apply tag, include, 10 transaction headers with "
+                       "effective date, clear state, code, wide characters, header note and transaction metadata, 22 posting shapes: clear marks, costs @ / @@, lot price {} / {{}}, lot date and note, parenthesised "
+                       "expressions, assertions with and without amount, posting notes and metadata, an over-long account, a tab separator) x {alone, no final newline, CRLF, surrounded by blank lines, followed by a "
+                       "transaction / directive / comment} + the whole catalogue as one file: 534 (thorough 910) texts, three laws each.  Two genuine defects were found and repaired (f1b9942, 0d35137).",
+        "units_doc": ["core/src/syntax/pretty_decimal.rs: FromStr for PrettyDecimal (Verus, C07)", "core/src/syntax/display.rs: indent literals (Verus slices, C19)", "core/src/parse/**, core/src/format.rs, core/src/syntax/display.rs: bounded family only"],
+        "assumptions": ["the catalogue is my reading of the documented syntax (README, doc comments of core/src/syntax.rs, testdata); syntax outside it is not exercised"],
+        "bounded": ["c05 family: 534 texts (thorough: 910), three laws each"],
+        "not_decided": ["acceptance of every text in the documented syntax and parse-format-parse for all inputs (bounded family only)"],
     },
     "C06": {
         "level": "other",
@@ -81,12 +101,14 @@ PROPS = {
                        "from_str (i128 overflow, scale overflow, indexing, loop termination: all string lengths), insert_price / insert_impl and check_balance (Decimal division by zero), posting_price_event "
                        "(unreachable! turned into an obligation), add_transaction (indexing postings[u]), the amount/balance kernels (unwrap/expect reachability), the two debug_assert!s of InternStore as obligations; "
                        "Kani (bounded, unwinding assertions on): ParseError::new terminates and stays in range for every failure offset including end of input, compute_line_number's assert precondition, clip has "
-                       "no underflow (complete), Display for PrettyDecimal does not panic (i16 mantissa, scale <= 2).  NOT decided: totality of the winnow parser on arbitrary text, include cycles, the CLI main.",
-        "units_doc": ["see C01, C02, C03, C07, C12 units", "core/src/parse/error.rs: ParseError::new, compute_line_number (Kani)", "core/src/parse/adaptor.rs: clip (Kani)", "core/src/syntax/pretty_decimal.rs: Display (Kani, bounded)"],
+                       "no underflow (complete).  NOT decided by proof: totality of the winnow parser on arbitrary text, the loader, the CLI main; they are exercised, bounded, by the c06 family: every prefix of sample ledgers and every "
+                       "string of <= 3 (thorough 4) characters over the ledger alphabet through format and report::process with a 3 s watchdog, small ledgers of every posting shape (crashes only), and five include graphs "
+                       "(self-inclusion, mutual inclusion, a cycle through a sub-directory, the same file twice, a diamond) each loaded in a child process because a stack overflow cannot be caught (found F11).",
+        "units_doc": ["see C01, C02, C03, C07, C12 units", "core/src/parse/error.rs: ParseError::new, compute_line_number (Kani)", "core/src/parse/adaptor.rs: clip (Kani)", "core/src/syntax/pretty_decimal.rs: try_find_char (Kani, bounded)"],
         "assumptions": [L0_DECIMAL, L0_HANDLES, L0_STD, L1_AMOUNT, L1_BOOK, STUBS, "overflow panics of Decimal + - * are outside C06 by its own 'representable range' clause",
                         "Kani: text <= 4 characters over {LF, CR, a, ;, あ (3 bytes)}"],
         "bounded": ["parse_error_new_bounded (text <= 4 characters incl. a 3-byte one)", "compute_line_number_bounded (same)", "try_find_char_no_panic (text <= 3 characters)"],
-        "not_decided": ["winnow parser totality on arbitrary text", "self-including files (load_impl recursion has no measure)", "cli main error mapping"],
+        "not_decided": ["winnow parser totality on arbitrary text (bounded family only)", "termination of load_impl for all include graphs (bounded family only; cycles are rejected since f36de73)", "cli main error mapping"],
         "unwind_is_violation": ["parse_error_new_bounded"],
     },
     "C13": {
@@ -162,6 +184,67 @@ PROPS = {
                         "A-EVAL (rule R22): the literal evaluator closure (FnMut over &mut ctx) is treated as a stateless function (F: Fn, &F); the default methods eval_mut / eval that build it are dropped (R16)"],
         "not_decided": ["precedence/associativity as produced by the winnow parser (parse/expr.rs)", "Evaluable::{eval_mut, eval} glue (closures capturing the context)"],
     },
+    "C09": {
+        "level": "other",
+        "verus": [("prices", None), ("bookkeep", ["PriceRepositoryBuilder::insert_price", "callsite:insert_impl division"]), ("determinism", ["callsite:compute_price_table.neighbor_order"])],
+        "kani": {"quick": [], "thorough": []},
+        "family": ("c09", {"quick": [], "thorough": ["thorough"]}),
+        "technique": "contract-based deductive verification of the fragments of price selection that a contract can reach (Verus on functions and call-site slices extracted from /repo); the chain search itself "
+                     "(label-correcting search over BinaryHeap + nested HashMap) is decided only by a bounded brute-force twin sweep through the real Ledger::eval",
+        "explanation": "PARTIAL / BOUNDED.  Verus proves: insert_price records every price in both directions with reciprocal rates (same date, same source) and ignores an event with a zero amount; the predicate that "
+                       "compute_price_table hands to partition_point is exactly `price date <= date`, and the price taken is the last of that usable prefix, i.e. the most recent usable one (the vector is date-sorted); "
+                       "no usable price = no edge; Distance::extend counts a ledger-derived step as a ledger step and a price-DB step not, counts every step, and keeps the stalest step's age; the comparison order "
+                       "of the three criteria (derive(Ord): field order) is pinned by a textual anchor; convert_single's identity test is `value.commodity == commodity_with`; neighbours are visited in a "
+                       "hash-seed-independent order (C13).  NOT decided by proof: that the search returns the minimum over all chains, source precedence inside insert_impl (nested entry API), load_price_db.  Those are "
+                       "exercised, bounded: every subset of <= 4 (thorough: 5) of 9 price facts over 4 commodities (ledger costs, an implied exchange, price-DB lines, a future price) x 6 dates x all 16 ordered pairs "
+                       "against a brute-force reading of the statement over all simple chains; chains that tie on all three criteria with different rates are skipped as undecided by the statement.",
+        "units_doc": ["core/src/report/price_db.rs: PriceRepositoryBuilder::insert_price, Distance::extend, compute_price_table (call-site slices: usable-price predicate, latest usable price, neighbour order), convert_single (identity test, slice)"],
+        "assumptions": [L0_DECIMAL, L0_HANDLES, "assumed L0 model of chrono::NaiveDate (day number) and TimeDelta (seconds), std::cmp::max on TimeDelta",
+                        "assumed (L1): insert_impl appends rate = price_with / price_of to records[price_with.commodity][price_of.commodity] (nested entry API); its source-precedence rule (a higher source clears lower-source entries) is not under contract",
+                        "assumed: slice::partition_point returns the length of the prefix satisfying the predicate (std, for a partitioned slice); build_naive sorts every rate vector by date (iterator chain, not under contract)"],
+        "bounded": ["c09 family: 255 (thorough: 381) price-fact subsets x 6 dates x 16 ordered commodity pairs = 24,480 (36,576) conversions; rates chosen so that reciprocals and products are exact decimals"],
+        "not_decided": ["optimality of the label-correcting search (bounded family only)", "PriceDB-over-ledger precedence in insert_impl (bounded family only)", "load_price_db / parse::price (bounded family only)", "ties among equally good chains (left open by the statement)"],
+    },
+    "C10": {
+        "level": "other",
+        "verus": [("convert", ["convert_amount"]), ("determinism", ["callsite:Ledger::balance.conversion_order", "Amount::sorted_values"])],
+        "kani": {"quick": [], "thorough": []},
+        "family": ("c10", {"quick": [], "thorough": []}),
+        "technique": "contract-based deductive verification: Verus on price_db::convert_amount extracted from /repo (loop invariant: running sum of the holdings converted so far) over an assumed contract of "
+                     "PriceRepository::convert_single; bounded stand-in for Ledger::balance's conversion branches: twin sweep through the real Ledger::balance",
+        "explanation": "PARTIAL.  Verus proves convert_amount, the function both conversion branches of Ledger::balance and `eval -X` go through: if every holding of the amount has a rate, the result holds exactly the "
+                       "target commodity with the sum, over Amount::iter's listing (every commodity exactly once: C13), of value x rate, a holding already in the target commodity counted as it is (so the result "
+                       "is linear in the amounts); if some holding has no rate the call fails - nothing is dropped, double-counted or left unconverted; the rates are a function of the records and are not changed by "
+                       "converting.  NOT decided by proof: the two branches of Ledger::balance themselves (iterator chains: per posting at the transaction date / per account at `now`, rounding once at the end), "
+                       "EvalOptions::to_conversion; they are exercised, bounded, by the c10 family: 4 ledgers x 3 scalings x declared/undeclared precision x 7 report dates (historical, before / between / on / after the "
+                       "price dates) against a twin written from the statement (direct ledger prices only, so that rate choice - C09 - plays no part).",
+        "units_doc": ["core/src/report/price_db.rs: convert_amount", "core/src/report/query.rs: Ledger::balance (account order before conversion, sliced; C13)", "core/src/report/eval/amount.rs: Amount::sorted_values (listing behind Amount::iter)"],
+        "assumptions": [L0_DECIMAL, L0_HANDLES, L0_STD, L1_AMOUNT,
+                        "assumed (L1): PriceRepository::convert_single returns its argument when it already is in the target commodity, value x rate(records, from, to, date) otherwise, RateNotFound when the table has no rate; "
+                        "the cache never changes an answer (entry().or_insert_with(closure) over compute_price_table is outside both verifiers)",
+                        "assumed (R25d): Amount::iter yields every commodity of the amount exactly once (tied to the proved Amount::sorted_values by a textual anchor)"],
+        "bounded": ["c10 family: 4 scenarios x scale {1, 2, -3} x T precision {none, 2} x report date {historical, 7 dates} = 168 queries"],
+        "not_decided": ["Ledger::balance conversion branches (bounded family only)", "which rate is the right one (C09)", "cli EvalOptions::to_conversion / to_date_range"],
+    },
+    "C11": {
+        "level": "other",
+        "verus": [("loadinc", None)],
+        "kani": {"quick": [], "thorough": []},
+        "family": ("c11", {"quick": [], "thorough": []}),
+        "technique": "bounded: one ledger split into included files in several ways on a real temporary directory (and on the in-memory file system), loaded through the real Loader and compared entry by entry with the "
+                     "unsplit ledger; contract-based only for the glob options (Verus on glob_match_options extracted from /repo) and three textual anchors on load_impl",
+        "explanation": "BOUNDED (almost no deductive content: stated plainly).  Loader::load_impl recurses through a FileSystem trait object, glob, PathBuf and an FnMut callback; the real file system has no specification, so "
+                       "no contract within reach decides 'splitting changes nothing'.  Proved: glob_match_options requires a literal separator and a literal leading dot (wildcards do not cross directories, dot-files are "
+                       "not matched).  Anchored textually (a change is exit 2): matches are sorted before being visited, an empty match returns an error, every non-include entry goes to the callback.  Everything else "
+                       "is the c11 family: a seven-entry ledger (commodity and account declarations, a comment, four transactions with an assertion) in 6 layouts - one include in the middle, includes first and last, "
+                       "nested includes relative to the including file and back through `..`, `*` and `?` globs with a dot-file, another extension and a deeper directory present - on a real temp dir (ProdFileSystem) "
+                       "and, where it has no `..`, on FakeFileSystem (whose glob returns matches in reverse order): delivered entries identical to the unsplit ledger (so: file order, in-place expansion, include line "
+                       "never delivered, sorted matches, dot-files skipped), same balance report; three includes that match nothing must fail.  Include cycles are covered under C06.",
+        "units_doc": ["core/src/load.rs: glob_match_options (Verus); Loader::load_impl (textual anchors + bounded family)"],
+        "assumptions": ["the glob crate implements MatchOptions as documented", "the family runs on the sandbox's file system (tempfile)"],
+        "bounded": ["c11 family: 6 layouts x 2 file systems + 3 empty-match cases = 14 loads"],
+        "not_decided": ["Loader::load_impl for all include graphs (bounded family only)", "ProdFileSystem::canonicalize_path / symlinks", "cli flatten command"],
+    },
     "C12": {
         "level": "proof",
         "verus": [("intern", None), ("evaluated", ["Evaluated::from_expr_amount_mut", "Evaluated::from_expr_amount"]), ("bookkeep", ["ProcessAccumulator::process"])],
@@ -193,6 +276,24 @@ PROPS = {
                         "assumed: str::replace is a function of (text, from, to); assert_str_eq! panics iff its operands differ (R15); Result::{or_else,unwrap_or_default} specs added by hand"],
         "not_decided": ["what str::replace(\"\\r\\n\", \"\\n\") computes (std)", "real file-system effects"],
     },
+    "C15": {
+        "level": "other",
+        "verus": [("rescale", None), ("prettydec", ["from_str"])],
+        "kani": {"quick": [], "thorough": []},
+        "family": ("c15", {"quick": [], "thorough": []}),
+        "technique": "bounded: statements imported through the real ImportCmd (what `okane import` prints) are parsed back with okane's own parser and compared field by field with what the importer built; "
+                     "contract-based only for the numeric clause (Verus on display::rescale: printing only pads, and on PrettyDecimal::from_str, C07)",
+        "explanation": "BOUNDED (read-back is parse after display: same obstacle as C05; stated plainly).  Deductive fragments reused: rescale never lowers the scale and keeps the value (numbers are only padded to the "
+                       "configured precision), from_str reads a printed literal back exactly (C07).  Everything else is the c15 family: the repository's six sample statements (camt.053, Viseca, four CSV layouts) with the "
+                       "repository's config, and 50 generated CSV statements whose payee / note fields carry text that means something in the ledger syntax (`;`, parentheses, `=`, `@`, `*`, `!`, tab, a date, wide "
+                       "characters, quotes, `key: value`, `:tag:`, line breaks, a forged posting line, leading / trailing / only spaces, `#`, `%`), with a balance column, a charge and a code-capturing rule: one "
+                       "transaction per record, same date, effective date, state, code, payee, accounts, amounts (by value), rates, assertions and comments.  One genuine defect was repaired (6136fd0: line breaks in "
+                       "statement text forged lines of the printed transaction); four are recorded as known findings because the Ledger syntax has no escape for them (known_findings.json).",
+        "units_doc": ["core/src/syntax/display.rs: rescale (Verus, C07 numeric clause)", "cli/src/cmd.rs ImportCmd::run, cli/src/import/**, core/src/parse/**: bounded family only"],
+        "assumptions": [L0_DECIMAL],
+        "bounded": ["c15 family: 6 repository samples + 50 generated CSV statements of 2 records"],
+        "not_decided": ["read-back for all statements (bounded family only)"],
+    },
     "C16": {
         "level": "proof",
         "verus": [("csvsign", None)],
@@ -200,14 +301,16 @@ PROPS = {
         "family": ("c16", {"quick": [], "thorough": []}),
         "explanation": "PARTIAL.  Verus proves the sign clauses on the real functions: FieldMap::amount books a non-empty credit column as +credit, otherwise a non-empty debit column as -debit, neither as an error, and an "
                        "`amount` column as +amount for an asset and -amount for a liability account; amount_with_sign gives the secondary amount the requested sign and keeps its magnitude and commodity; Neg for "
-                       "OwnedAmount/BorrowedAmount negates the value only; the statement that orders the rows at the end of csv::import (sliced out) keeps an oldest-first statement and reverses a newest-first one.  Thorough tier (Kani on the real okane crate, one symbolic record): Txn::to_double_entry puts +amount (with the balance assertion) on the "
-                       "configured account first for a positive row and last for a negative one, the counter posting carries the opposite amount or the secondary amount with the opposite sign, Income:/Expenses:Unknown "
-                       "by direction and pending unless an account was assigned.  NOT decided: column mapping/templates, conversion-rate orientation inside csv::import, acceptance by book-keeping.",
-        "units_doc": ["cli/src/import/csv.rs: FieldMap::amount", "cli/src/import/single_entry.rs: amount_with_sign (Verus), Txn::to_double_entry (Kani, thorough)", "cli/src/import/amount.rs: Neg impls, AmountRef::into_borrowed"],
+                       "OwnedAmount/BorrowedAmount negates the value only; the two expressions of Txn::dest_amount (sliced): without a conversion the counter-posting carries the opposite amount, with one the secondary "
+                       "amount with the sign opposite to the row's amount; the statement that orders the rows at the end of csv::import (sliced) keeps an oldest-first statement and reverses a newest-first one.  "
+                       "NOT decided by proof: Txn::to_double_entry's posting order / balance assertion / Unknown accounts (a Kani harness for it did not finish in 50 minutes and is no longer registered), column "
+                       "mapping and templates, the conversion block of csv::import, acceptance by book-keeping: these are exercised, bounded, by the c16 family (16 statement layouts x account types x row orders with and "
+                       "without a running balance; conversion cases: default, rule-disabled, account-disabled, compute / price_of_primary) through the real import, to_double_entry and okane's own report::process.",
+        "units_doc": ["cli/src/import/csv.rs: FieldMap::amount, row-order statement of import (slice)", "cli/src/import/single_entry.rs: amount_with_sign, Txn::dest_amount (two slices)", "cli/src/import/amount.rs: Neg impls, AmountRef::into_borrowed"],
         "assumptions": [L0_DECIMAL, "assumed (L1): FieldMap::resolve returns the configured column/template text; str_to_comma_decimal returns None for an empty string, else the number written or an error (it is PrettyDecimal::from_str, C07)",
-                        "stand-ins for csv::StringRecord, Template, ImportError (vx/prelude/csv_stub.rs)", "Kani harness: RandomState::new stubbed with fixed keys (rates table stays empty)"],
-        "bounded": ["to_double_entry_signs: one record, i64 mantissa, scale <= 4, no charges, no rates"],
-        "not_decided": ["csv::import row loop (csv crate, regex, HashMap): conversion block, templates", "that okane's book-keeping accepts the result"],
+                        "stand-ins for csv::StringRecord, Template, ImportError (vx/prelude/csv_stub.rs) and for the amount member of Txn (TxnAmounts)"],
+        "bounded": ["c16 family: 16 + 2 configurations, 4-5 rows each"],
+        "not_decided": ["Txn::to_double_entry (bounded family only)", "csv::import row loop (csv crate, regex, HashMap): conversion block, templates (bounded family only)", "that okane's book-keeping accepts the result (bounded family only)"],
     },
     "C17": {
         "level": "other",
@@ -225,6 +328,24 @@ PROPS = {
         "bounded": ["quick: 2 rules x 1 OR-element x <= 2 AND-fields (about 4 min of CBMC); thorough: 2 rules x <= 2 OR x 1 field, and <= 2 rules x <= 2 OR x <= 2 AND (about 26 min); names from {None, p1, p2}",
                     "c17 family: base document + every ordered selection of <= 3 of 7 documents x 5 file paths; every list of <= 2 (quick: a third of the 3-rule lists; thorough: all) of 8 rules x 6 CSV rows"],
         "not_decided": ["ConfigSet::select_impl ordering and matching (bounded family only)", "regex matchers and capture groups (bounded family only)", "Income:/Expenses:Unknown fallback (decided under C16's Kani harness)"],
+    },
+    "C18": {
+        "level": "other",
+        "verus": [("camt", None), ("csvsign", ["Neg for OwnedAmount"])],
+        "kani": {"quick": [], "thorough": []},
+        "family": ("c18", {"quick": [], "thorough": []}),
+        "technique": "contract-based deductive verification of the importer's sign and date helpers (Verus on functions extracted from /repo); the importer's control structure (serde-derived XML model, iterator chains) is "
+                     "decided only by a bounded sweep of generated consistent statements through the real importer and okane's own book-keeping",
+        "explanation": "PARTIAL / BOUNDED.  Verus proves xmlnode::Amount::to_data (credit = +amount, debit = -amount, the statement's currency: the function every entry, detail, balance and charge amount goes "
+                       "through) and Entry::guess_value_date (value date, else booking date).  NOT decided by proof: iso_camt053::import itself (opening-balance transaction first, one transaction per entry or per detail, "
+                       "effective date = booking date when different, closing balance asserted on the last transaction, row order) - serde-derived types and iterator chains are outside Verus, and the Kani route was "
+                       "measured as intractable (DESIGN 10.3).  Those clauses are exercised, bounded, by the c18 family: 5 generated consistent statements (positive / zero / negative opening balance, entries "
+                       "with and without value date, batched details summing to the entry) x both row orders through the real import + to_double_entry, then - after a funding transaction giving the account its opening "
+                       "balance - through okane's own report::process, which must accept the ledger and end the account at the closing balance.",
+        "units_doc": ["cli/src/import/iso_camt053.rs: xmlnode::Amount::to_data, xmlnode::Entry::guess_value_date", "cli/src/import/amount.rs: Neg for OwnedAmount (charges)"],
+        "assumptions": [L0_DECIMAL, "assumed L0 model of chrono::NaiveDate", "stand-ins for xmlnode::Entry (the two date members) and DateHolder::as_naive_date (vx/prelude/camt_stub.rs)"],
+        "bounded": ["c18 family: 5 statements x 2 row orders = 10 imports (<= 3 entries, <= 3 details per entry, one currency, no charges, no currency exchange)"],
+        "not_decided": ["iso_camt053::import control structure (bounded family only)", "charges (add_charges) and currency exchange details", "the XML decoder (quick_xml / serde)"],
     },
     "C19": {
         "level": "proof",
